@@ -5,6 +5,7 @@ lean/PyXABProofs/Generated/Formulas.lean together with one obligation each: trac
 import os, sys, math
 from common import *
 import numpy as np
+import numpy.random  # loaded before math.* is patched (its module init calls math functions)
 
 
 class E:
@@ -393,6 +394,51 @@ def traced():
         a.receive_reward(1, E("r"))
         return ("V k r", a.average_rewards[arm], "Published.runningMean V k r")
     run("zoom_mean", zoom_mean)
+
+    def vroom_prob():
+        import PyXAB.algos.VROOM as VM
+
+        class Nd:
+            def get_rank(self): return [E("rank")]
+            def get_children(self): return None
+            def sample_uniform(self): return [0.5]
+
+        class Part:
+            def get_node_list(self): return [[Nd()], [Nd()]]
+            def get_depth(self): return 1
+        a = VM.VROOM.__new__(VM.VROOM)
+        a.search_depth = 1; a.const = E("C"); a.h_max = 1; a.partition = Part(); a.rank = lambda nodes: None
+        ch = np.random.choice
+        np.random.choice = lambda *x, **k: 0
+        try:
+            a.pull(1)
+        finally:
+            np.random.choice = ch
+        return ("rank C", a.prob[0], "Published.vroomProb (1 : α) rank C")
+    run("vroom_prob", vroom_prob)
+
+    def vroom_tilde():
+        import PyXAB.algos.VROOM as VM
+        got = {}
+
+        class Nd:
+            def get_depth(self): return 1
+            def update_reward(self, r): pass
+            def update_reward_tilde(self, v): got["v"] = v
+        a = VM.VROOM.__new__(VM.VROOM)
+        a.update_list = [Nd()]; a.prob = [E(f"p{i}") for i in range(6)]
+        a.receive_reward(1, E("r"))
+        return ("r p0 p1", got["v"], "Published.vroomTilde r ((0 : α) + p0 + p1) (1 : α)")
+    run("vroom_tilde", vroom_tilde)
+
+    def vhct_varfloor():
+        from PyXAB.algos.VHCT import VHCT_node
+        nd = make_node(VHCT_node)
+        nd.visited_times = 3
+        nd.minvariance = E("minvar"); nd.variance = E("var0")
+        nd.update_reward(E("r"))
+        return ("varR minvar", nd.variance, "Published.varFloor max varR minvar")
+    run("vhct_varfloor", vhct_varfloor)
     return out, problems
 
 
@@ -413,7 +459,7 @@ variable {α : Type} [Field α] (sqrt log ceil floor : α → α) (rpow : α →
 
 SUBSETS = {"C05": ["hoo_u", "hct_u", "vhct_u"], "C06": ["hct_tau", "vhct_tau", "hoo_depth"], "C08": ["sto_b", "doo_b"],
            "C10": ["poo_score", "poo_rho", "poo_cond"], "C11": ["zoom_index", "zoom_radius", "zoom_threshold", "zoom_mean"],
-           "C13": ["vroom_lcb"], "C09": ["gpo_N", "gpo_half"]}
+           "C13": ["vroom_lcb", "vroom_prob", "vroom_tilde"], "C09": ["gpo_N", "gpo_half"], "C04": ["vhct_varfloor"]}
 SUBSETS["C05"] += ["hct_dt_one", "vhct_dt_one"]
 SUBSETS["C06"] += ["hct_dt_half", "vhct_dt_half"]
 
@@ -444,7 +490,8 @@ theorem {name} ({vs} : α) :
     {ex.s} = {spec} := by
   (simp only [Published.hooU, Published.hctU, Published.vhctU, Published.hctTau, Published.vhctTau, Published.stoB, Published.dooB,
     Published.hooDepth, Published.zoomIndex, Published.vroomLcb, Published.runningMean, Published.hctDt, Published.gpoN,
-    Published.gpoHalf, Published.gridRho, Published.pooBound, Published.zoomRadius, Published.zoomThreshold])
+    Published.gpoHalf, Published.gridRho, Published.pooBound, Published.zoomRadius, Published.zoomThreshold,
+    Published.vroomProb, Published.vroomTilde, Published.varFloor])
     <;> (first | rfl | ring | (ring_nf; done) | (congr 1 <;> ring_nf; done) | (congr 2 <;> ring_nf; done))
 """)
         names.append(name)
